@@ -32,117 +32,119 @@ def run(eng, R):
     R.ob("H-ndf", "MultiFit.data_size", "np.sum(_data_sizes)" in txt and "_fit.data_size for _fit in self._fits" in txt, (f.file, f.lineno), "MultiFit.data_size must sum the data sizes of all members")
 
     # ---- chi2 probability
-    # path-sensitive: a conditional expression and an early `return None` for non-chi2 cost functions are the same thing
-    check(eng, R, "H-prob", "CostFunction", "chi2_probability", "result", "1.0 - chi2.cdf(cost_function_value, ndf)", when="(self.is_chi2)", known=["self.is_chi2", "cost_function_value", "ndf", "()chi2.cdf"],
-          what="chi2 probability must be the upper tail 1 - CDF_chi2(ndf)(cost)")
-    from .formulas import extract as _extract
-    _cp = get_func(p, "CostFunction", "chi2_probability")
-    _none_forms = [x.canon() for _, x, _ in _extract(_cp, "result", None, "not (self.is_chi2)", node=eng.cnode(_cp))]   # (no explicit return on that path = None)
-    R.ob("H-prob", "CostFunction.chi2_probability:not a chi2", all(x == "None" for x in _none_forms), (_cp.file, _cp.lineno), "no chi2 probability for a cost function that is not a chi2 (found %s)" % _none_forms)
-    for cname in ("FitBase", "MultiFit"):
-        f = get_func(p, cname, "chi2_probability")
-        # every subtraction of a graph node's value (`<cost> -= <x>._nexus.get(...).value`), whatever the accumulator is called
-        subs = [n for n in ast.walk(f.node) if isinstance(n, ast.AugAssign) and isinstance(n.op, ast.Sub) and isinstance(n.target, ast.Name)
-                and any(isinstance(c, ast.Call) and isinstance(c.func, ast.Attribute) and c.func.attr == "get" and "_nexus" in ast.unparse(c.func.value) for c in ast.walk(n.value))]
-        ok_all = bool(subs)
-        bad = None
-        for n in subs:
-            conds = " ".join(ast.unparse(common.resolve_local(f.node, c)) for c, pol in common.guard_conditions(f.node, n) if pol)   # (a flag held in a local is read through)
-            if not ("add_determinant_cost" in conds or "_shared_error_nodes_initialized" in conds):
-                ok_all = False
-                bad = n
-        R.ob("H-prob", "%s.chi2_probability:guards" % cname, ok_all, (f.file, bad.lineno if bad else f.lineno),
-             "%s.chi2_probability subtracts a log-determinant (%s) without testing whether the cost contains it (add_determinant_cost / shared cost): "
-             "for members without determinant term the probability is evaluated at the wrong value" % (cname, norm_stmt(bad) if bad else "none found"))
-        rets = [r for r in ast.walk(f.node) if isinstance(r, ast.Return) and r.value is not None]
-        ok = bool(rets) and all(isinstance(r.value, ast.Call) and isinstance(r.value.func, ast.Attribute) and r.value.func.attr == "chi2_probability"
-                                and len(r.value.args) == 2 and ast.unparse(r.value.args[0]) == "_cost" and ast.unparse(r.value.args[1]) == "self.ndf" for r in rets)
-        R.ob("H-prob", "%s.chi2_probability:call" % cname, ok, (f.file, f.lineno), "%s.chi2_probability must evaluate the cost function's chi2_probability at (cost - determinant, self.ndf)" % cname)
+    with R.guard("chi2 probability"):
+        # path-sensitive: a conditional expression and an early `return None` for non-chi2 cost functions are the same thing
+        check(eng, R, "H-prob", "CostFunction", "chi2_probability", "result", "1.0 - chi2.cdf(cost_function_value, ndf)", when="(self.is_chi2)", known=["self.is_chi2", "cost_function_value", "ndf", "()chi2.cdf"],
+              what="chi2 probability must be the upper tail 1 - CDF_chi2(ndf)(cost)")
+        from .formulas import extract as _extract
+        _cp = get_func(p, "CostFunction", "chi2_probability")
+        _none_forms = [x.canon() for _, x, _ in _extract(_cp, "result", None, "not (self.is_chi2)", node=eng.cnode(_cp))]   # (no explicit return on that path = None)
+        R.ob("H-prob", "CostFunction.chi2_probability:not a chi2", all(x == "None" for x in _none_forms), (_cp.file, _cp.lineno), "no chi2 probability for a cost function that is not a chi2 (found %s)" % _none_forms)
+        for cname in ("FitBase", "MultiFit"):
+            f = get_func(p, cname, "chi2_probability")
+            # every subtraction of a graph node's value (`<cost> -= <x>._nexus.get(...).value`), whatever the accumulator is called
+            subs = [n for n in ast.walk(f.node) if isinstance(n, ast.AugAssign) and isinstance(n.op, ast.Sub) and isinstance(n.target, ast.Name)
+                    and any(isinstance(c, ast.Call) and isinstance(c.func, ast.Attribute) and c.func.attr == "get" and "_nexus" in ast.unparse(c.func.value) for c in ast.walk(n.value))]
+            ok_all = bool(subs)
+            bad = None
+            for n in subs:
+                conds = " ".join(ast.unparse(common.resolve_local(f.node, c)) for c, pol in common.guard_conditions(f.node, n) if pol)   # (a flag held in a local is read through)
+                if not ("add_determinant_cost" in conds or "_shared_error_nodes_initialized" in conds):
+                    ok_all = False
+                    bad = n
+            R.ob("H-prob", "%s.chi2_probability:guards" % cname, ok_all, (f.file, bad.lineno if bad else f.lineno),
+                 "%s.chi2_probability subtracts a log-determinant (%s) without testing whether the cost contains it (add_determinant_cost / shared cost): "
+                 "for members without determinant term the probability is evaluated at the wrong value" % (cname, norm_stmt(bad) if bad else "none found"))
+            rets = [r for r in ast.walk(f.node) if isinstance(r, ast.Return) and r.value is not None]
+            ok = bool(rets) and all(isinstance(r.value, ast.Call) and isinstance(r.value.func, ast.Attribute) and r.value.func.attr == "chi2_probability"
+                                    and len(r.value.args) == 2 and ast.unparse(r.value.args[0]) == "_cost" and ast.unparse(r.value.args[1]) == "self.ndf" for r in rets)
+            R.ob("H-prob", "%s.chi2_probability:call" % cname, ok, (f.file, f.lineno), "%s.chi2_probability must evaluate the cost function's chi2_probability at (cost - determinant, self.ndf)" % cname)
 
     # ---- goodness of fit
-    f = get_func(p, "CostFunction", "goodness_of_fit")
-    check(eng, R, "H-gof", "CostFunction", "goodness_of_fit", "return", "self(*args_with_zero_det) - self._cost_function_handle(*args_saturated)",
-          rename=None, what="gof = cost - saturated cost") if False else None
-    src = eng.csrc(f)
-    # placeholders: `_c` the cost, `_a` the argument tuple it is evaluated at, `_b` the argument list of the saturated evaluation (may be the same name as `_a`,
-    # rebound), `_id` / `_im` the positions of data and model
-    DIFF = [["_c = self(*_a)", "return _c - self._cost_function_handle(*_b)"], ["_c = self(*_a)", "_s = self._cost_function_handle(*_b)", "return _c - _s"],
-            ["_c = self(*_a)", "return _c - self._cost_function_handle(*_a)"], ["_c = self(*_a)", "_s = self._cost_function_handle(*_a)", "return _c - _s"]]
-    R.ob("H-gof", "CostFunction.goodness_of_fit:difference", common.like_any(src, *DIFF), (f.file, f.lineno), "goodness_of_fit must return cost - saturated cost")
-    IDX = ["_id = self._arg_names.index(self._DATA_NAME)", "_im = self._arg_names.index(self._MODEL_NAME)"]
-    SAT = [IDX + ["_b[_im] = _b[_id]", "self._cost_function_handle(*_b)"]]
-    R.ob("H-gof", "CostFunction.goodness_of_fit:saturated", common.like_any(src, *SAT), (f.file, f.lineno),
-         "the saturated cost must be the cost handle evaluated with the model argument replaced by the data")
-    R.ob("H-gof", "CostFunction.goodness_of_fit:indices", common.like_any(src, IDX), (f.file, f.lineno), "data/model positions must be looked up by the cost function's own data/model names")
-    s0 = common.Src(str(src))
-    R.ob("H-gof", "CostFunction.goodness_of_fit:cost", s0.like("_c = self(*_a)"), (f.file, f.lineno), "the cost term of the gof must be the full cost (constraints included)")
-    cost_name = s0._binding.get("_c", "_cost")
-    g = eng.cfg(f)
-    costs = [n for n in g.stmt_nodes() if n.kind == "stmt" and isinstance(n.stmt, ast.Assign) and ast.unparse(n.stmt.targets[0]) == cost_name]
-    zero = [n for n in g.nodes if n.kind == "test" and isinstance(n.stmt, ast.If) and self_attr(n.stmt.test) == "_add_determinant_cost"
-            and any(isinstance(a, ast.Assign) and "args[:-1] + (0.0,)" in ast.unparse(a) for a in n.stmt.body)]
-    ok = bool(costs) and bool(zero) and all(g.dominated_by(c.id, lambda m: m.id in {z.id for z in zero})[0] for c in costs)
-    R.ob("H-gof", "CostFunction.goodness_of_fit:zero determinant", ok, (f.file, f.lineno), "the goodness of fit must be independent of the determinant term: the determinant argument is replaced by 0.0 before the cost is evaluated")
-    ga = get_func(p, "CostFunction_GaussApproximation", "goodness_of_fit")
-    g = eng.cfg(ga)
-    sets = [n for n in g.stmt_nodes() if n.kind == "stmt" and isinstance(n.stmt, ast.Assign) and any(self_attr(t) == "_add_determinant_cost_ga" for t in n.stmt.targets)]
-    ok = len(sets) == 2 and isinstance(sets[0].stmt.value, ast.Constant) and sets[0].stmt.value.value is False and isinstance(sets[1].stmt.value, ast.Name)
-    if ok:
-        saved = sets[1].stmt.value.id
-        ok = any(isinstance(a, ast.Assign) and isinstance(a.targets[0], ast.Name) and a.targets[0].id == saved and self_attr(a.value) == "_add_determinant_cost_ga" for a in ast.walk(ga.node))
-        ok = ok and g.all_paths_pass(sets[0].id, lambda m: m.id == sets[1].id)[0]
-    R.ob("H-gof", "CostFunction_GaussApproximation.goodness_of_fit", ok, (ga.file, ga.lineno),
-         "the Gaussian-approximation gof must switch its determinant flag off for the evaluation and restore the saved value afterwards")
-    fb = get_func(p, "FitBase", "goodness_of_fit")
-    src = eng.csrc(fb)
-    R.ob("H-gof", "FitBase.goodness_of_fit", src.all_like("_c = self._cost_function_pointwise if self._cost_function_pointwise is not None and is_diagonal(self.total_cov_mat) else self._cost_function",
-                                                          "return _c.goodness_of_fit(*[self._nexus.get(_n).value for _n in _c.arg_names])"),
-         (fb.file, fb.lineno), "FitBase.goodness_of_fit must evaluate the selected cost function's gof on the values of its own argument nodes")
+    with R.guard("goodness of fit"):
+        f = get_func(p, "CostFunction", "goodness_of_fit")
+        check(eng, R, "H-gof", "CostFunction", "goodness_of_fit", "return", "self(*args_with_zero_det) - self._cost_function_handle(*args_saturated)",
+              rename=None, what="gof = cost - saturated cost") if False else None
+        src = eng.csrc(f)
+        # placeholders: `_c` the cost, `_a` the argument tuple it is evaluated at, `_b` the argument list of the saturated evaluation (may be the same name as `_a`,
+        # rebound), `_id` / `_im` the positions of data and model
+        DIFF = [["_c = self(*_a)", "return _c - self._cost_function_handle(*_b)"], ["_c = self(*_a)", "_s = self._cost_function_handle(*_b)", "return _c - _s"],
+                ["_c = self(*_a)", "return _c - self._cost_function_handle(*_a)"], ["_c = self(*_a)", "_s = self._cost_function_handle(*_a)", "return _c - _s"]]
+        R.ob("H-gof", "CostFunction.goodness_of_fit:difference", common.like_any(src, *DIFF), (f.file, f.lineno), "goodness_of_fit must return cost - saturated cost")
+        IDX = ["_id = self._arg_names.index(self._DATA_NAME)", "_im = self._arg_names.index(self._MODEL_NAME)"]
+        SAT = [IDX + ["_b[_im] = _b[_id]", "self._cost_function_handle(*_b)"]]
+        R.ob("H-gof", "CostFunction.goodness_of_fit:saturated", common.like_any(src, *SAT), (f.file, f.lineno),
+             "the saturated cost must be the cost handle evaluated with the model argument replaced by the data")
+        R.ob("H-gof", "CostFunction.goodness_of_fit:indices", common.like_any(src, IDX), (f.file, f.lineno), "data/model positions must be looked up by the cost function's own data/model names")
+        s0 = common.Src(str(src))
+        R.ob("H-gof", "CostFunction.goodness_of_fit:cost", s0.like("_c = self(*_a)"), (f.file, f.lineno), "the cost term of the gof must be the full cost (constraints included)")
+        cost_name = s0._binding.get("_c", "_cost")
+        g = eng.cfg(f)
+        costs = [n for n in g.stmt_nodes() if n.kind == "stmt" and isinstance(n.stmt, ast.Assign) and ast.unparse(n.stmt.targets[0]) == cost_name]
+        zero = [n for n in g.nodes if n.kind == "test" and isinstance(n.stmt, ast.If) and self_attr(n.stmt.test) == "_add_determinant_cost"
+                and any(isinstance(a, ast.Assign) and "args[:-1] + (0.0,)" in ast.unparse(a) for a in n.stmt.body)]
+        ok = bool(costs) and bool(zero) and all(g.dominated_by(c.id, lambda m: m.id in {z.id for z in zero})[0] for c in costs)
+        R.ob("H-gof", "CostFunction.goodness_of_fit:zero determinant", ok, (f.file, f.lineno), "the goodness of fit must be independent of the determinant term: the determinant argument is replaced by 0.0 before the cost is evaluated")
+        ga = get_func(p, "CostFunction_GaussApproximation", "goodness_of_fit")
+        g = eng.cfg(ga)
+        sets = [n for n in g.stmt_nodes() if n.kind == "stmt" and isinstance(n.stmt, ast.Assign) and any(self_attr(t) == "_add_determinant_cost_ga" for t in n.stmt.targets)]
+        ok = len(sets) == 2 and isinstance(sets[0].stmt.value, ast.Constant) and sets[0].stmt.value.value is False and isinstance(sets[1].stmt.value, ast.Name)
+        if ok:
+            saved = sets[1].stmt.value.id
+            ok = any(isinstance(a, ast.Assign) and isinstance(a.targets[0], ast.Name) and a.targets[0].id == saved and self_attr(a.value) == "_add_determinant_cost_ga" for a in ast.walk(ga.node))
+            ok = ok and g.all_paths_pass(sets[0].id, lambda m: m.id == sets[1].id)[0]
+        R.ob("H-gof", "CostFunction_GaussApproximation.goodness_of_fit", ok, (ga.file, ga.lineno),
+             "the Gaussian-approximation gof must switch its determinant flag off for the evaluation and restore the saved value afterwards")
+        fb = get_func(p, "FitBase", "goodness_of_fit")
+        src = eng.csrc(fb)
+        R.ob("H-gof", "FitBase.goodness_of_fit", src.all_like("_c = self._cost_function_pointwise if self._cost_function_pointwise is not None and is_diagonal(self.total_cov_mat) else self._cost_function",
+                                                              "return _c.goodness_of_fit(*[self._nexus.get(_n).value for _n in _c.arg_names])"),
+             (fb.file, fb.lineno), "FitBase.goodness_of_fit must evaluate the selected cost function's gof on the values of its own argument nodes")
 
-    # the pointwise twin may stand in for the covariance cost only for an exactly diagonal matrix (any tolerance drops small correlations from the gof)
-    isd = p.resolve_name(p.module("kafe2.fit.util"), "is_diagonal")
-    tol = [common.call_name(c) for c in ast.walk(isd.node) if isinstance(c, ast.Call) and common.call_name(c) in ("allclose", "isclose", "assert_allclose", "array_equiv")]
-    cmps = [type(o).__name__ for c in ast.walk(isd.node) if isinstance(c, ast.Compare) for o in c.ops]
-    R.ob("H-gof", "is_diagonal:exact", not tol and not any(o in ("Lt", "LtE", "Gt", "GtE") for o in cmps), (isd.file, isd.lineno),
-         "is_diagonal uses a tolerance (%s %s): for a covariance with small but non-zero correlations goodness_of_fit evaluates the pointwise chi2 and drops the correlations" % (tol, cmps))
+        # the pointwise twin may stand in for the covariance cost only for an exactly diagonal matrix (any tolerance drops small correlations from the gof)
+        isd = p.resolve_name(p.module("kafe2.fit.util"), "is_diagonal")
+        tol = [common.call_name(c) for c in ast.walk(isd.node) if isinstance(c, ast.Call) and common.call_name(c) in ("allclose", "isclose", "assert_allclose", "array_equiv")]
+        cmps = [type(o).__name__ for c in ast.walk(isd.node) if isinstance(c, ast.Compare) for o in c.ops]
+        R.ob("H-gof", "is_diagonal:exact", not tol and not any(o in ("Lt", "LtE", "Gt", "GtE") for o in cmps), (isd.file, isd.lineno),
+             "is_diagonal uses a tolerance (%s %s): for a covariance with small but non-zero correlations goodness_of_fit evaluates the pointwise chi2 and drops the correlations" % (tol, cmps))
 
     # ---- MultiFit overrides
-    mg = get_func(p, "MultiFit", "goodness_of_fit")
-    src = ast.unparse(mg.node)
-    ok = "_gof_sum += _gof" in src and "for _fit in self._fits" in src and "_gof_sum += self._shared_cost_function.goodness_of_fit" in src \
-        and "if self._shared_error_nodes_initialized and _fit._cost_function.is_chi2:\n        continue" in src.replace("    ", " " * 4).replace("            continue", "        continue")
-    msrc = eng.csrc(mg)
-    R.ob("F4", "MultiFit.goodness_of_fit", msrc.all_like("for _m in self._fits: if self._shared_error_nodes_initialized and _m._cost_function.is_chi2:", "_g = _m.goodness_of_fit if _g is None: return None _s += _g",
-                                                          "if self._shared_error_nodes_initialized: _s += self._shared_cost_function.goodness_of_fit(", "return _s"),
-         (mg.file, mg.lineno), "MultiFit.goodness_of_fit must sum the members' gof (chi2 members once through the shared cost when errors are shared)")
-    # constraint terms of the multi-fit gof: the multi fit's own constraints, and - for members whose residuals moved into the shared cost - the members' constraints
-    def adds_constraints(node, owner):
-        for lp in ast.walk(node):
-            if isinstance(lp, ast.For) and " ".join(ast.unparse(lp.iter).split()) == "%s.parameter_constraints" % owner and isinstance(lp.target, ast.Name):
-                for a in ast.walk(lp):
-                    if isinstance(a, ast.AugAssign) and isinstance(a.op, ast.Add) and " ".join(ast.unparse(a.value).split()) == "%s.cost(%s.parameter_values)" % (lp.target.id, owner):
-                        return True
-        return False
+    with R.guard("MultiFit overrides"):
+        mg = get_func(p, "MultiFit", "goodness_of_fit")
+        src = ast.unparse(mg.node)
+        ok = "_gof_sum += _gof" in src and "for _fit in self._fits" in src and "_gof_sum += self._shared_cost_function.goodness_of_fit" in src \
+            and "if self._shared_error_nodes_initialized and _fit._cost_function.is_chi2:\n        continue" in src.replace("    ", " " * 4).replace("            continue", "        continue")
+        msrc = eng.csrc(mg)
+        R.ob("F4", "MultiFit.goodness_of_fit", msrc.all_like("for _m in self._fits: if self._shared_error_nodes_initialized and _m._cost_function.is_chi2:", "_g = _m.goodness_of_fit if _g is None: return None _s += _g",
+                                                              "if self._shared_error_nodes_initialized: _s += self._shared_cost_function.goodness_of_fit(", "return _s"),
+             (mg.file, mg.lineno), "MultiFit.goodness_of_fit must sum the members' gof (chi2 members once through the shared cost when errors are shared)")
+        # constraint terms of the multi-fit gof: the multi fit's own constraints, and - for members whose residuals moved into the shared cost - the members' constraints
+        def adds_constraints(node, owner):
+            for lp in ast.walk(node):
+                if isinstance(lp, ast.For) and " ".join(ast.unparse(lp.iter).split()) == "%s.parameter_constraints" % owner and isinstance(lp.target, ast.Name):
+                    for a in ast.walk(lp):
+                        if isinstance(a, ast.AugAssign) and isinstance(a.op, ast.Add) and " ".join(ast.unparse(a.value).split()) == "%s.cost(%s.parameter_values)" % (lp.target.id, owner):
+                            return True
+            return False
 
-    R.ob("H-gof", "MultiFit.goodness_of_fit:own constraints", adds_constraints(ast.Module(body=mg.node.body, type_ignores=[]), "self"), (mg.file, mg.lineno),
-         "the goodness of fit of a MultiFit must contain the cost of the constraints added to the MultiFit (the cost, ndf and probability count them)")
-    # the branch of the member loop taken for chi2 members under shared errors (written as `if shared and chi2: ... continue` or as if/else)
-    skips = [i for i in ast.walk(mg.node) if isinstance(i, ast.If) and "_shared_error_nodes_initialized" in ast.unparse(i.test) and "is_chi2" in ast.unparse(i.test)
-             and i.body and (isinstance(i.body[-1], ast.Continue) or i.orelse)]
-    okc = len(skips) == 1
-    if okc:
-        lp = [l for l in ast.walk(mg.node) if isinstance(l, ast.For) and skips[0] in l.body]
-        okc = bool(lp) and isinstance(lp[0].target, ast.Name) and adds_constraints(ast.Module(body=skips[0].body, type_ignores=[]), lp[0].target.id) \
-            and not any(isinstance(x, ast.Attribute) and x.attr == "goodness_of_fit" for st_ in skips[0].body for x in ast.walk(st_))
-    R.ob("H-gof", "MultiFit.goodness_of_fit:member constraints with shared errors", okc, (mg.file, mg.lineno),
-         "members whose residuals are covered by the shared cost function must still contribute the cost of their own parameter constraints")
-    cs = get_func(p, "MultiCostFunction", "cost_sum")
-    R.ob("F4", "MultiCostFunction.cost_sum", ast.unparse(cs.node.body[-1]).replace(" ", "") in ("returnnp.sum(single_costs)", "returnsum(single_costs)"), (cs.file, cs.lineno), "the multi-fit cost must be the plain sum of the member costs")
-    mc = get_func(p, "MultiFit", "chi2_probability")
-    src = ast.unparse(mc.node)
-    R.ob("F4", "MultiFit.chi2_probability:members", "for _fit in self._fits" in src and "_fit._nexus.get('total_cov_mat_log_determinant')" in src, (mc.file, mc.lineno),
-         "MultiFit.chi2_probability must subtract each member's own determinant term")
-
+        R.ob("H-gof", "MultiFit.goodness_of_fit:own constraints", adds_constraints(ast.Module(body=mg.node.body, type_ignores=[]), "self"), (mg.file, mg.lineno),
+             "the goodness of fit of a MultiFit must contain the cost of the constraints added to the MultiFit (the cost, ndf and probability count them)")
+        # the branch of the member loop taken for chi2 members under shared errors (written as `if shared and chi2: ... continue` or as if/else)
+        skips = [i for i in ast.walk(mg.node) if isinstance(i, ast.If) and "_shared_error_nodes_initialized" in ast.unparse(i.test) and "is_chi2" in ast.unparse(i.test)
+                 and i.body and (isinstance(i.body[-1], ast.Continue) or i.orelse)]
+        okc = len(skips) == 1
+        if okc:
+            lp = [l for l in ast.walk(mg.node) if isinstance(l, ast.For) and skips[0] in l.body]
+            okc = bool(lp) and isinstance(lp[0].target, ast.Name) and adds_constraints(ast.Module(body=skips[0].body, type_ignores=[]), lp[0].target.id) \
+                and not any(isinstance(x, ast.Attribute) and x.attr == "goodness_of_fit" for st_ in skips[0].body for x in ast.walk(st_))
+        R.ob("H-gof", "MultiFit.goodness_of_fit:member constraints with shared errors", okc, (mg.file, mg.lineno),
+             "members whose residuals are covered by the shared cost function must still contribute the cost of their own parameter constraints")
+        cs = get_func(p, "MultiCostFunction", "cost_sum")
+        R.ob("F4", "MultiCostFunction.cost_sum", ast.unparse(cs.node.body[-1]).replace(" ", "") in ("returnnp.sum(single_costs)", "returnsum(single_costs)"), (cs.file, cs.lineno), "the multi-fit cost must be the plain sum of the member costs")
+        mc = get_func(p, "MultiFit", "chi2_probability")
+        src = ast.unparse(mc.node)
+        R.ob("F4", "MultiFit.chi2_probability:members", "for _fit in self._fits" in src and "_fit._nexus.get('total_cov_mat_log_determinant')" in src, (mc.file, mc.lineno),
+             "MultiFit.chi2_probability must subtract each member's own determinant term")
 
 def _defs(f, expr):
     out = ""
